@@ -65,6 +65,9 @@ func valueOf(code string) any {
 	case code[0] == 'm':
 		n, _ := strconv.Atoi(code[1:])
 		return map[string]int{"v": n}
+	case code[0] == 'n': // a nested section: a map[string]any value (replaced as a whole by Set and Merge)
+		n, _ := strconv.Atoi(code[1:])
+		return map[string]any{"x" + strconv.Itoa(n%3): n}
 	}
 	panic("bad code " + code)
 }
@@ -89,6 +92,14 @@ func codeOf(v any) string {
 	case map[string]int:
 		if len(x) == 1 {
 			return "m" + strconv.Itoa(x["v"])
+		}
+	case map[string]any:
+		if len(x) == 1 {
+			for k, v := range x {
+				if n, ok := v.(int); ok && k == "x"+strconv.Itoa(n%3) {
+					return "n" + strconv.Itoa(n)
+				}
+			}
 		}
 	case string:
 		if strings.HasPrefix(x, "POISON") {
@@ -204,6 +215,7 @@ type snapshot struct {
 	origMap state    // deep copy at hand-out
 	origKey []string // deep copy at hand-out
 	mutated bool
+	arg     bool // not handed out by the store: a map this client passed to Merge and kept
 }
 
 func keyIndex(k string) int {
@@ -276,7 +288,10 @@ func execOp(st *flyt.SharedStore, op *Op, snaps *[]*snapshot) (out string, snapA
 		for i, kk := range op.Keys {
 			m[keyNames[kk]] = valueOf(op.Vals[i])
 		}
+		orig, _ := mapToState(m)
 		st.Merge(m)
+		// the caller keeps its map: the store must have copied the entries
+		*snaps = append(*snaps, &snapshot{isMap: true, m: m, origMap: orig, arg: true})
 	case "mergenil":
 		st.Merge(nil)
 	case "mergesnap":
@@ -338,6 +353,18 @@ func mutateSnap(op *Op, snaps []*snapshot) {
 		return
 	}
 	sn := pickSnap(snaps, op.Snap, true)
+	if op.Kind == "mutarg" { // only maps this client handed to Merge earlier
+		var args []*snapshot
+		for _, x := range snaps {
+			if x.arg {
+				args = append(args, x)
+			}
+		}
+		sn = nil
+		if len(args) > 0 {
+			sn = args[op.Snap%len(args)]
+		}
+	}
 	if sn == nil {
 		return
 	}
@@ -356,10 +383,14 @@ type genState struct {
 	r      *rand.Rand
 	nextID int
 	nkeys  int
+	nested bool // this scenario is heavy on nested-section values
 }
 
 func (g *genState) val() string {
 	g.nextID++
+	if g.nested && g.r.IntN(2) == 0 || g.r.IntN(20) == 0 {
+		return "n" + strconv.Itoa(g.nextID)
+	}
 	switch g.r.IntN(14) {
 	case 12:
 		return "l" + strconv.Itoa(g.nextID)
@@ -415,10 +446,11 @@ func (g *genState) op(snapOps bool) Op {
 		kinds := []string{"getstring", "getstringor", "getint", "getintor", "getfloat", "getbool"}
 		return Op{Kind: kinds[r.IntN(len(kinds))], Key: key}
 	default:
-		if !snapOps {
-			return Op{Kind: "get", Key: key}
-		}
 		g.nextID++
+		if !snapOps {
+			// the caller changes a map it handed to Merge earlier: none of the store's business
+			return Op{Kind: "mutarg", Snap: r.IntN(4), Key: key, ID: g.nextID}
+		}
 		if r.IntN(3) == 0 {
 			return Op{Kind: "mergesnap", Snap: r.IntN(4)}
 		}
@@ -431,7 +463,7 @@ func (g *genState) op(snapOps bool) Op {
 }
 
 func gen(prop, tier string, r *rand.Rand, idx int) any {
-	g := &genState{r: r}
+	g := &genState{r: r, nested: r.IntN(5) == 0}
 	sc := &Scn{}
 	if prop == "C14" && r.IntN(2) == 0 {
 		// sequential refinement: one client, long history, wide key space
@@ -555,8 +587,8 @@ func run(t *testing.T, prop string, x any, cfg simrt.Config) *eng.Outcome {
 	client := func(c int) {
 		for i := range sc.Clients[c] {
 			op := &sc.Clients[c][i]
-			if op.Kind == "mutsnap" {
-				simrt.Emit(simrt.Event{Kind: "mutsnap", N: c, V: i})
+			if op.Kind == "mutsnap" || op.Kind == "mutarg" {
+				simrt.Emit(simrt.Event{Kind: op.Kind, N: c, V: i})
 				mutateSnap(op, snaps[c])
 				continue
 			}
@@ -603,7 +635,7 @@ func run(t *testing.T, prop string, x any, cfg simrt.Config) *eng.Outcome {
 	for c := range hist {
 		oi := 0
 		for i := range sc.Clients[c] {
-			if sc.Clients[c][i].Kind == "mutsnap" {
+			if k := sc.Clients[c][i].Kind; k == "mutsnap" || k == "mutarg" {
 				continue
 			}
 			if oi >= len(hist[c]) {
@@ -658,6 +690,15 @@ func run(t *testing.T, prop string, x any, cfg simrt.Config) *eng.Outcome {
 		default:
 			o.Probes["porcupine_ok"]++
 		}
+		// the store's state is its own: a map a client handed to Merge and did not
+		// touch afterwards must not have been written by later store operations
+		for c := range snaps {
+			for _, sn := range snaps[c] {
+				if now, bad := mapToState(sn.m); o.V == nil && sn.arg && !sn.mutated && (bad != "" || now != sn.origMap) {
+					o.V = viol("merge-argument-written-by-store", "a map client %d passed to Merge was changed by later store operations: was {%s}, now {%s} %s (the store shares state with its caller outside its lock)", c, encMap(sn.origMap), encMap(now), bad)
+				}
+			}
+		}
 	case "C14":
 		if nc == 1 {
 			var s state
@@ -688,7 +729,11 @@ func run(t *testing.T, prop string, x any, cfg simrt.Config) *eng.Outcome {
 				if sn.isMap {
 					now, bad := mapToState(sn.m)
 					if bad != "" || now != sn.origMap {
-						o.V = viol("snapshot-changed", "GetAll snapshot %d of client %d changed after it was handed out: was {%s}, now {%s} %s", si, c, encMap(sn.origMap), encMap(now), bad)
+						what := "GetAll snapshot"
+						if sn.arg {
+							what = "map passed to Merge, entry"
+						}
+						o.V = viol("snapshot-changed", "%s %d of client %d changed after it was handed out: was {%s}, now {%s} %s", what, si, c, encMap(sn.origMap), encMap(now), bad)
 						return o
 					}
 				} else if strings.Join(sn.keys, "\x01") != strings.Join(sn.origKey, "\x01") {
